@@ -19,7 +19,10 @@ Setting names:  P  a setting that was renamed (old name "Po" still active), Q, R
                    modulo that entry: the stamp belongs to the writer, not to the user),
                 Z  the settings nobody touches in a behaviour (always at default; still written by the full style and by
                    the medium style after a file that mentioned them).
-File names also include old names (Po) and names no setting has ("Zz": unknown or an *expired* old name).
+                N  a renamed setting (old name "No") of a plugin that is registered in the middle of a behaviour (action
+                   Register): only objects made after that have it -- fresh ones, and copies (a copy takes its settings
+                   from the app: Settings.__setstate__) -- and to the others N and No are just unknown names.
+File names also include old names (Po, No) and names no setting has ("Zz": unknown or an *expired* old name).
 
 Actions and the code they transcribe (armi/settings)
   New                 caseSettings.Settings()                                 every setting at its default
@@ -52,6 +55,8 @@ Actions and the code they transcribe (armi/settings)
                       source object's path to be what it was)
   GetSet              Settings.getSetting(s) returns a copy of the Setting; assigning to it changes nothing
   Revert              Settings.revertToDefaults
+  Register            getApp().pluginManager.register(<plugin defining N with an old name>)   the set of settings grows while
+                      the process runs; readers made afterwards must know the new setting's old name whatever was read before
 
 Interpretation choices
   * "read back" = read into a Settings object; reading overlays.  Equality for every setting is therefore claimed for a
@@ -81,7 +86,9 @@ Clauses of the statement and the properties that state them
                                                                  for the other two styles), NoDuplicateEntries
   refused when assigned / read, previous value in place        RefusalKeepsEverything, ReadRefusalKeepsPrevious,
                                                                  StoredValuesAreCanonical
-  renamed settings accepted under old names                    RenameLands, UnknownNamesAreReportedAndIgnored
+  renamed settings accepted under old names                    RenameLands (also for the setting that arrives by Register after
+                                                                 files have been read), UnknownNamesAreReportedAndIgnored,
+                                                                 LateSettingOnlyWhereItExists
   modified copies do not affect the original                   OthersUntouched, CopiesStartEqual, AdHocStaysWithTheCopy,
                                                                  observation `shared`; all input forms of modified():
                                                                  plain value, Setting object, new key, case title
@@ -97,9 +104,9 @@ CONSTANTS MaxObj,          \* number of Settings objects a behaviour may create
           Ops,             \* action groups enabled: subset of {"assign", "io", "tamper", "hand", "copy", "misc"}
           Generic          \* the ordinary settings as a sequence: <<"Q">> or <<"Q", "R">>
 
-Order   == <<"P">> \o Generic \o <<"V", "Z">>    \* the writer's order (sorted by lower-cased name)
+Order   == <<"P", "N">> \o Generic \o <<"V", "Z">>    \* the writer's order (sorted by lower-cased name)
 Names   == {Order[i] : i \in 1..Len(Order)}
-OldOf   == [n \in {"Po"} |-> "P"]           \* active renames
+OldOf   == [n \in {"Po", "No"} |-> IF n = "Po" THEN "P" ELSE "N"]           \* active renames
 Unknown == {"Zz"}
 AdHoc   == "Xk"                            \* the ad-hoc setting Settings.modified creates for a name that is no setting
 FileNames == Names \cup DOMAIN OldOf \cup Unknown \cup {AdHoc}
@@ -118,8 +125,11 @@ VARIABLES objs,    \* live Settings objects (1..k)
           err,     \* outcome of the last call: "", "Invalid", "Nonexistent"
           inv,     \* names the last successful read reported as invalid (reader.invalidSettings)
           extra,   \* the objects that carry the ad-hoc setting
+          reg,     \* the plugin that defines N has been registered
+          late,    \* the objects that have the setting N (made after the registration)
           last     \* the last action and the state before it (for the invariants and the emitted edge label)
-vars == <<objs, val, file, err, inv, extra, last>>
+vars == <<objs, val, file, err, inv, extra, reg, late, last>>
+Has(o, s) == s # "N" \/ o \in late      \* object o has a setting named s
 
 NoFile == [es |-> <<>>, style |-> "none", src |-> AllD, clean |-> FALSE]
 EntryNames(f) == {f.es[i].n : i \in 1..Len(f.es)}
@@ -133,6 +143,7 @@ TypeOK ==
     /\ err \in {"", "Invalid", "Nonexistent"}
     /\ inv \subseteq FileNames
     /\ extra \subseteq objs
+    /\ reg \in BOOLEAN /\ late \subseteq objs
 
 Init == /\ objs = {1}
         /\ val = [o \in {1} |-> AllD]
@@ -140,47 +151,50 @@ Init == /\ objs = {1}
         /\ err = ""
         /\ inv = {}
         /\ extra = {}
-        /\ last = [a |-> [n |-> "Init"], pre |-> [o \in {1} |-> AllD], prex |-> {}]
+        /\ reg = FALSE /\ late = {}
+        /\ last = [a |-> [n |-> "Init"], pre |-> [o \in {1} |-> AllD], prex |-> {}, prel |-> {}, prer |-> FALSE]
 
-Did(a) == last' = [a |-> a, pre |-> val, prex |-> extra]
+Did(a) == last' = [a |-> a, pre |-> val, prex |-> extra, prel |-> late, prer |-> reg]
 Fresh == Cardinality(objs) + 1
+Born == late' = IF reg THEN late \cup {Fresh} ELSE late       \* an object made now has N iff the plugin is registered
 
 \* ------------------------------------------------------------------------------------------------ objects, assignment
 New ==
     /\ "copy" \in Ops \/ "io" \in Ops
     /\ Fresh <= MaxObj
     /\ objs' = objs \cup {Fresh} /\ val' = [o \in objs \cup {Fresh} |-> IF o = Fresh THEN AllD ELSE val[o]]
-    /\ err' = "" /\ UNCHANGED <<file, inv, extra>> /\ Did([n |-> "New", id |-> Fresh])
+    /\ err' = "" /\ UNCHANGED <<file, inv, extra, reg>> /\ Born /\ Did([n |-> "New", id |-> Fresh])
 
 Assign(o, s, r) ==
-    /\ "assign" \in Ops /\ Admits(s, r)
+    /\ "assign" \in Ops /\ Admits(s, r) /\ Has(o, s)
     /\ val' = [val EXCEPT ![o][s] = Canon(r)]
-    /\ err' = "" /\ UNCHANGED <<objs, file, inv, extra>> /\ Did([n |-> "Assign", o |-> o, s |-> s, r |-> r])
+    /\ err' = "" /\ UNCHANGED <<objs, file, inv, extra, reg, late>> /\ Did([n |-> "Assign", o |-> o, s |-> s, r |-> r])
 
 AssignBad(o, s) ==                       \* refused: the previous value stays
-    /\ "assign" \in Ops
-    /\ err' = "Invalid" /\ UNCHANGED <<objs, val, file, inv, extra>> /\ Did([n |-> "AssignBad", o |-> o, s |-> s, r |-> "x"])
+    /\ "assign" \in Ops /\ Has(o, s)
+    /\ err' = "Invalid" /\ UNCHANGED <<objs, val, file, inv, extra, reg, late>> /\ Did([n |-> "AssignBad", o |-> o, s |-> s, r |-> "x"])
 
 AssignUnknown(o, nm) ==                  \* neither unknown nor old names are settings of the object
-    /\ "assign" \in Ops /\ nm \in DOMAIN OldOf \cup Unknown
-    /\ err' = "Nonexistent" /\ UNCHANGED <<objs, val, file, inv, extra>> /\ Did([n |-> "AssignUnknown", o |-> o, nm |-> nm])
+    /\ "assign" \in Ops /\ nm \in DOMAIN OldOf \cup Unknown \cup (IF Has(o, "N") THEN {} ELSE {"N"})
+    /\ err' = "Nonexistent" /\ UNCHANGED <<objs, val, file, inv, extra, reg, late>> /\ Did([n |-> "AssignUnknown", o |-> o, nm |-> nm])
 
 Revert(o) ==
     /\ "misc" \in Ops
     /\ val' = [val EXCEPT ![o] = AllD]
-    /\ err' = "" /\ UNCHANGED <<objs, file, inv, extra>> /\ Did([n |-> "Revert", o |-> o])
+    /\ err' = "" /\ UNCHANGED <<objs, file, inv, extra, reg, late>> /\ Did([n |-> "Revert", o |-> o])
 
 GetSet(o, s, r) ==                       \* getSetting returns a copy: whatever is done to it stays with it
-    /\ "misc" \in Ops /\ r \in Raw /\ (r \in RawOk => Admits(s, r))
+    /\ "misc" \in Ops /\ r \in Raw /\ (r \in RawOk => Admits(s, r)) /\ Has(o, s)
     /\ err' = IF r \in RawBad THEN "Invalid" ELSE ""
-    /\ UNCHANGED <<objs, val, file, inv, extra>> /\ Did([n |-> "GetSet", o |-> o, s |-> s, r |-> r])
+    /\ UNCHANGED <<objs, val, file, inv, extra, reg, late>> /\ Did([n |-> "GetSet", o |-> o, s |-> s, r |-> r])
 
 \* ------------------------------------------------------------------------------------------------ writing
 UserSet == EntryNames(file) \cap Names   \* medium: the names the user's file mentions (exact current names only)
 AdHocWritten(o, style) ==                \* the ad-hoc setting is always at its default: full writes it, medium if the user's file named it
     o \in extra /\ (style = "full" \/ (style = "medium" /\ AdHoc \in EntryNames(file)))
 Written(o, style) ==
-    {s \in Names : \/ style = "full"
+    {s \in {n \in Names : Has(o, n)} :
+                   \/ style = "full"
                    \/ val[o][s] # "d"
                    \/ style = "medium" /\ s \in UserSet
                    \/ s = "V"}                                    \* the version stamp is always written
@@ -194,89 +208,99 @@ Write(o, style) ==
            es == [i \in 1..Len(ws) |-> [n |-> ws[i], t |-> val[o][ws[i]]]] IN
        file' = [es |-> IF AdHocWritten(o, style) THEN Append(es, [n |-> AdHoc, t |-> "d"]) ELSE es,
                 style |-> style, src |-> val[o], clean |-> TRUE]
-    /\ err' = "" /\ UNCHANGED <<objs, val, inv, extra>> /\ Did([n |-> "Write", o |-> o, style |-> style, user |-> SeqOver(UserSet)])
+    /\ err' = "" /\ UNCHANGED <<objs, val, inv, extra, reg, late>> /\ Did([n |-> "Write", o |-> o, style |-> style, user |-> SeqOver(UserSet)])
 
 \* -- a user edits the file
 SetBad(i) ==                             \* replace a value by one the setting refuses
     /\ "tamper" \in Ops /\ i \in 1..Len(file.es) /\ file.es[i].t \in RawOk /\ file.es[i].n \notin Unknown \cup {AdHoc}
     /\ file' = [file EXCEPT !.es[i].t = "x", !.clean = FALSE]
-    /\ err' = "" /\ UNCHANGED <<objs, val, inv, extra>> /\ Did([n |-> "SetBad", i |-> i])
+    /\ err' = "" /\ UNCHANGED <<objs, val, inv, extra, reg, late>> /\ Did([n |-> "SetBad", i |-> i])
 SetOld(i) ==                             \* use the old name of a renamed setting
     /\ "tamper" \in Ops /\ i \in 1..Len(file.es)
     /\ \E old \in DOMAIN OldOf : /\ OldOf[old] = file.es[i].n /\ old \notin EntryNames(file)
                                  /\ file' = [file EXCEPT !.es[i].n = old, !.clean = FALSE]
-    /\ err' = "" /\ UNCHANGED <<objs, val, inv, extra>> /\ Did([n |-> "SetOld", i |-> i])
+    /\ err' = "" /\ UNCHANGED <<objs, val, inv, extra, reg, late>> /\ Did([n |-> "SetOld", i |-> i])
 AddUnknown ==                            \* add a name no setting has
     /\ "tamper" \in Ops /\ file.style # "none" /\ "Zz" \notin EntryNames(file)
     /\ file' = [file EXCEPT !.es = Append(@, [n |-> "Zz", t |-> "a"]), !.clean = FALSE]
-    /\ err' = "" /\ UNCHANGED <<objs, val, inv, extra>> /\ Did([n |-> "AddUnknown"])
+    /\ err' = "" /\ UNCHANGED <<objs, val, inv, extra, reg, late>> /\ Did([n |-> "AddUnknown"])
 HandWrite(es) ==
     /\ "hand" \in Ops /\ es \in HandFiles
     /\ file' = [es |-> es, style |-> "hand", src |-> AllD, clean |-> FALSE]
-    /\ err' = "" /\ UNCHANGED <<objs, val, inv, extra>> /\ Did([n |-> "HandWrite", es |-> es])
+    /\ err' = "" /\ UNCHANGED <<objs, val, inv, extra, reg, late>> /\ Did([n |-> "HandWrite", es |-> es])
 
 \* ------------------------------------------------------------------------------------------------ reading
 Target(nm) == IF nm \in Names THEN nm ELSE IF nm \in DOMAIN OldOf THEN OldOf[nm] ELSE "none"
-Known(nm, o) == Target(nm) # "none" \/ (nm = AdHoc /\ o \in extra)        \* a name the reading object has a setting for
-Refused(e) == Target(e.n) # "none" /\ ~Admits(Target(e.n), e.t)
-FirstRefused(es) == IF \E i \in 1..Len(es) : Refused(es[i]) THEN CHOOSE i \in 1..Len(es) : Refused(es[i]) /\ \A j \in 1..(i - 1) : ~Refused(es[j])
-                    ELSE 0
+\* the setting of object o a file name stands for ("none": o has no such setting -- the entry is reported and ignored)
+TargetIn(nm, o) == IF Target(nm) # "none" /\ Has(o, Target(nm)) THEN Target(nm) ELSE "none"
+Known(nm, o) == TargetIn(nm, o) # "none" \/ (nm = AdHoc /\ o \in extra)
+Refused(e, o) == TargetIn(e.n, o) # "none" /\ ~Admits(TargetIn(e.n, o), e.t)
+FirstRefused(es, o) == IF \E i \in 1..Len(es) : Refused(es[i], o)
+                       THEN CHOOSE i \in 1..Len(es) : Refused(es[i], o) /\ \A j \in 1..(i - 1) : ~Refused(es[j], o)
+                       ELSE 0
 \* _readYaml looks into the `versions` entry (for the armi version the file was written with) before it applies anything:
 \* a `versions` entry that is not a mapping makes the whole read fail at once
-StampRefused(es) == \E i \in 1..Len(es) : es[i].n = "V" /\ Refused(es[i])
-RefusedAt(es) == IF StampRefused(es) THEN CHOOSE i \in 1..Len(es) : es[i].n = "V" ELSE FirstRefused(es)   \* 0: nothing refused
-AppliedBefore(es) == IF StampRefused(es) THEN 0 ELSE FirstRefused(es) - 1                                 \* entries applied before the refusal
-Applied(v, es, k) ==                     \* v after the first k entries (none of them refused); the ad-hoc entry holds its default
+StampRefused(es, o) == \E i \in 1..Len(es) : es[i].n = "V" /\ Refused(es[i], o)
+RefusedAt(es, o) == IF StampRefused(es, o) THEN CHOOSE i \in 1..Len(es) : es[i].n = "V" ELSE FirstRefused(es, o)   \* 0: nothing refused
+AppliedBefore(es, o) == IF StampRefused(es, o) THEN 0 ELSE FirstRefused(es, o) - 1                            \* entries applied before the refusal
+Applied(v, es, k, o) ==                  \* v after the first k entries (none of them refused); the ad-hoc entry holds its default
     LET F[i \in 0..k] == IF i = 0 THEN v
-                         ELSE IF Target(es[i].n) = "none" THEN F[i - 1]
-                         ELSE [F[i - 1] EXCEPT ![Target(es[i].n)] = Canon(es[i].t)]
+                         ELSE IF TargetIn(es[i].n, o) = "none" THEN F[i - 1]
+                         ELSE [F[i - 1] EXCEPT ![TargetIn(es[i].n, o)] = Canon(es[i].t)]
     IN F[k]
 Read(o) ==
     /\ "io" \in Ops /\ file.style # "none"
     /\ LET es == file.es IN
-       IF RefusedAt(es) = 0
-       THEN /\ val' = [val EXCEPT ![o] = Applied(val[o], es, Len(es))]
+       IF RefusedAt(es, o) = 0
+       THEN /\ val' = [val EXCEPT ![o] = Applied(val[o], es, Len(es), o)]
             /\ err' = ""
             /\ inv' = {es[i].n : i \in {j \in 1..Len(es) : ~Known(es[j].n, o)}}
-       ELSE /\ val' = [val EXCEPT ![o] = Applied(val[o], es, AppliedBefore(es))]   \* the entries before the refused one stay applied
+       ELSE /\ val' = [val EXCEPT ![o] = Applied(val[o], es, AppliedBefore(es, o), o)]   \* the entries before the refused one stay applied
             /\ err' = "Invalid"
             /\ inv' = {}
-    /\ UNCHANGED <<objs, file, extra>> /\ Did([n |-> "Read", o |-> o])
+    /\ UNCHANGED <<objs, file, extra, reg, late>> /\ Did([n |-> "Read", o |-> o])
+
+\* ------------------------------------------------------------------------------------------------ a plugin arrives
+Register ==
+    /\ "late" \in Ops /\ ~reg
+    /\ reg' = TRUE
+    /\ err' = "" /\ UNCHANGED <<objs, val, file, inv, extra, late>> /\ Did([n |-> "Register"])
 
 \* ------------------------------------------------------------------------------------------------ copies
 Inherit(o) == IF o \in extra THEN extra \cup {Fresh} ELSE extra         \* a copy carries the ad-hoc setting iff its source does
 Modified(o, s, r) ==
-    /\ "copy" \in Ops /\ Fresh <= MaxObj /\ Admits(s, r)
+    /\ "copy" \in Ops /\ Fresh <= MaxObj /\ Admits(s, r) /\ Has(o, s)
     /\ objs' = objs \cup {Fresh}
     /\ val' = [p \in objs \cup {Fresh} |-> IF p = Fresh THEN [val[o] EXCEPT ![s] = Canon(r)] ELSE val[p]]
     /\ extra' = Inherit(o)
-    /\ err' = "" /\ UNCHANGED <<file, inv>> /\ Did([n |-> "Modified", o |-> o, s |-> s, r |-> r, id |-> Fresh])
+    /\ err' = "" /\ UNCHANGED <<file, inv, reg>> /\ Born /\ Did([n |-> "Modified", o |-> o, s |-> s, r |-> r, id |-> Fresh])
 ModifiedObj(o, s, r) ==                  \* the same change handed over as a Setting object
-    /\ "copy" \in Ops /\ Fresh <= MaxObj /\ Admits(s, r)
+    /\ "copy" \in Ops /\ Fresh <= MaxObj /\ Admits(s, r) /\ Has(o, s)
     /\ objs' = objs \cup {Fresh}
     /\ val' = [p \in objs \cup {Fresh} |-> IF p = Fresh THEN [val[o] EXCEPT ![s] = Canon(r)] ELSE val[p]]
     /\ extra' = Inherit(o)
-    /\ err' = "" /\ UNCHANGED <<file, inv>> /\ Did([n |-> "ModifiedObj", o |-> o, s |-> s, r |-> r, id |-> Fresh])
+    /\ err' = "" /\ UNCHANGED <<file, inv, reg>> /\ Born /\ Did([n |-> "ModifiedObj", o |-> o, s |-> s, r |-> r, id |-> Fresh])
 ModifiedNewKey(o) ==                     \* a name that is no setting: the copy, and only the copy, gains the ad-hoc setting
     /\ "copy" \in Ops /\ Fresh <= MaxObj /\ o \notin extra
     /\ objs' = objs \cup {Fresh}
     /\ val' = [p \in objs \cup {Fresh} |-> IF p = Fresh THEN val[o] ELSE val[p]]
     /\ extra' = extra \cup {Fresh}
-    /\ err' = "" /\ UNCHANGED <<file, inv>> /\ Did([n |-> "ModifiedNewKey", o |-> o, id |-> Fresh])
+    /\ err' = "" /\ UNCHANGED <<file, inv, reg>> /\ Born /\ Did([n |-> "ModifiedNewKey", o |-> o, id |-> Fresh])
 ModifiedBad(o, s) ==                     \* the refused change raises out of modified(): no copy, nothing changed
-    /\ "copy" \in Ops /\ Fresh <= MaxObj
-    /\ err' = "Invalid" /\ UNCHANGED <<objs, val, file, inv, extra>> /\ Did([n |-> "ModifiedBad", o |-> o, s |-> s, r |-> "x"])
+    /\ "copy" \in Ops /\ Fresh <= MaxObj /\ Has(o, s)
+    /\ err' = "Invalid" /\ UNCHANGED <<objs, val, file, inv, extra, reg, late>> /\ Did([n |-> "ModifiedBad", o |-> o, s |-> s, r |-> "x"])
 Duplicate(o, kind) ==
     /\ "copy" \in Ops /\ Fresh <= MaxObj /\ kind \in CopyKinds
     /\ objs' = objs \cup {Fresh}
     /\ val' = [p \in objs \cup {Fresh} |-> IF p = Fresh THEN val[o] ELSE val[p]]
     /\ extra' = Inherit(o)
-    /\ err' = "" /\ UNCHANGED <<file, inv>> /\ Did([n |-> "Duplicate", o |-> o, kind |-> kind, id |-> Fresh])
+    /\ err' = "" /\ UNCHANGED <<file, inv, reg>> /\ Born /\ Did([n |-> "Duplicate", o |-> o, kind |-> kind, id |-> Fresh])
 
 \* one named disjunct per action (TLC reports coverage per name)
 DoAssign        == \E o \in objs, s \in Names, r \in RawOk : Assign(o, s, r)
 DoAssignBad     == \E o \in objs, s \in Names : AssignBad(o, s)
 DoAssignUnknown == \E o \in objs, nm \in FileNames : AssignUnknown(o, nm)
+DoRegister      == Register
 DoGetSet        == \E o \in objs, s \in Names, r \in {"a", "x"} : GetSet(o, s, r)
 DoRevert        == \E o \in objs : Revert(o)
 DoWrite         == \E o \in objs, st \in Styles : Write(o, st)
@@ -289,7 +313,7 @@ DoModifiedObj   == \E o \in objs, s \in Names, r \in {"a", "ca", "d"} : Modified
 DoModifiedNewKey == \E o \in objs : ModifiedNewKey(o)
 DoModifiedBad   == \E o \in objs, s \in Names : ModifiedBad(o, s)
 DoDuplicate     == \E o \in objs, kind \in CopyKinds : Duplicate(o, kind)
-Next == \/ New \/ DoAssign \/ DoAssignBad \/ DoAssignUnknown \/ DoGetSet \/ DoRevert \/ DoWrite \/ DoSetBad \/ DoSetOld
+Next == \/ New \/ DoRegister \/ DoAssign \/ DoAssignBad \/ DoAssignUnknown \/ DoGetSet \/ DoRevert \/ DoWrite \/ DoSetBad \/ DoSetOld
         \/ AddUnknown \/ DoHandWrite \/ DoRead \/ DoModified \/ DoModifiedObj \/ DoModifiedNewKey \/ DoModifiedBad \/ DoDuplicate
 Spec == Init /\ [][Next]_vars
 
@@ -305,42 +329,50 @@ WrittenValuesAreCurrent ==               \* a written file holds, for each setti
                                                  ELSE file.es[i].n \in Names /\ file.es[i].t = val[A.o][file.es[i].n]
 ShortOmitsExactlyDefaults ==             \* ... and the short style mentions exactly the settings off their default (+ stamp)
     A.n = "Write" /\ file.style = "short" => EntryNames(file) = {s \in Names : val[A.o][s] # "d"} \cup {"V"}
-FullWritesAll == A.n = "Write" /\ file.style = "full" => EntryNames(file) = Names \cup (IF A.o \in extra THEN {AdHoc} ELSE {})
+FullWritesAll == A.n = "Write" /\ file.style = "full" =>
+                     EntryNames(file) = {s \in Names : Has(A.o, s)} \cup (IF A.o \in extra THEN {AdHoc} ELSE {})
 MediumIsShortPlusUserSet ==              \* medium = short plus the settings the user's previous file mentioned by their current names
     A.n = "Write" /\ file.style = "medium" =>
-        EntryNames(file) \ {AdHoc} = {s \in Names : val[A.o][s] # "d"} \cup {"V"} \cup {A.user[i] : i \in 1..Len(A.user)}
+        EntryNames(file) \ {AdHoc} = {s \in Names : val[A.o][s] # "d"} \cup {"V"} \cup {A.user[i] : i \in {j \in 1..Len(A.user) : Has(A.o, A.user[j])}}
 NoDuplicateEntries == \A i, j \in 1..Len(file.es) : file.es[i].n = file.es[j].n => i = j
 
 \* -- round trip
 ReadOk == A.n = "Read" /\ err = ""
+ReaderHasAll == \A s \in EntryNames(file) \cap Names : Has(A.o, s)     \* the reading object has every setting the file mentions
 ReadIsOverlay ==                         \* an unedited written file, read: mentioned settings take the writer's values,
     ReadOk /\ file.clean =>              \* the others keep what the reading object had
-        \A s \in Names : val[A.o][s] = IF s \in EntryNames(file) THEN file.src[s] ELSE Pre[A.o][s]
+        \A s \in Names : val[A.o][s] = IF s \in EntryNames(file) /\ Has(A.o, s) THEN file.src[s] ELSE Pre[A.o][s]
 RoundTripFresh ==                        \* any style, read into a fresh object: equal values for every setting
-    ReadOk /\ file.clean /\ Pre[A.o] = AllD => val[A.o] = file.src
+    ReadOk /\ file.clean /\ Pre[A.o] = AllD /\ ReaderHasAll => val[A.o] = file.src
 RoundTripFull ==                         \* full style, read into any object
-    ReadOk /\ file.clean /\ file.style = "full" => val[A.o] = file.src
-UneditedFilesAreAccepted == A.n = "Read" /\ file.clean => err = "" /\ inv \subseteq {AdHoc}
+    ReadOk /\ file.clean /\ file.style = "full" /\ ReaderHasAll => val[A.o] = file.src
+UneditedFilesAreAccepted == A.n = "Read" /\ file.clean => err = "" /\ inv \subseteq {AdHoc, "N"}
 
 \* -- refusal
 RefusalKeepsEverything ==                \* a refused assignment (direct, through modified(), on a getSetting copy) changes nothing
     A.n \in {"AssignBad", "AssignUnknown", "ModifiedBad", "GetSet"} => val = Pre /\ (A.n # "GetSet" => err # "")
 ReadRefusalKeepsPrevious ==              \* a refused entry leaves the value its setting had just before it
     A.n = "Read" /\ err = "Invalid" =>
-        LET k == RefusedAt(file.es)  tgt == Target(file.es[k].n)  n == AppliedBefore(file.es) IN
+        LET k == RefusedAt(file.es, A.o)  tgt == TargetIn(file.es[k].n, A.o)  n == AppliedBefore(file.es, A.o) IN
         /\ k > 0 /\ n < k
-        /\ val[A.o][tgt] = Applied(Pre[A.o], file.es, n)[tgt]
-        /\ \A s \in Names : (\A i \in 1..n : Target(file.es[i].n) # s) => val[A.o][s] = Pre[A.o][s]
+        /\ val[A.o][tgt] = Applied(Pre[A.o], file.es, n, A.o)[tgt]
+        /\ \A s \in Names : (\A i \in 1..n : TargetIn(file.es[i].n, A.o) # s) => val[A.o][s] = Pre[A.o][s]
 StoredValuesAreCanonical == \A o \in objs : \A s \in Names : val[o][s] \in Toks(s)
 
 \* -- renames, unknown names
 LastEntryFor(s, i) == \A j \in (i + 1)..Len(file.es) : Target(file.es[j].n) # s
 RenameLands ==                           \* an entry under an active old name lands on the current name and is not "invalid"
-    ReadOk => \A i \in 1..Len(file.es) : file.es[i].n \in DOMAIN OldOf =>
+    ReadOk => \A i \in 1..Len(file.es) : file.es[i].n \in DOMAIN OldOf /\ Has(A.o, OldOf[file.es[i].n]) =>
                  /\ file.es[i].n \notin inv
                  /\ LastEntryFor(OldOf[file.es[i].n], i) => val[A.o][OldOf[file.es[i].n]] = Canon(file.es[i].t)
 UnknownNamesAreReportedAndIgnored ==
     ReadOk => inv = (EntryNames(file) \cap Unknown) \cup (IF AdHoc \in EntryNames(file) /\ A.o \notin extra THEN {AdHoc} ELSE {})
+                    \cup {nm \in EntryNames(file) : Target(nm) = "N" /\ ~Has(A.o, "N")}
+LateSettingOnlyWhereItExists ==          \* N lives in the objects made since its plugin was registered, and only there
+    /\ \A o \in objs : ~Has(o, "N") => val[o]["N"] = "d"
+    /\ \A p \in DOMAIN Pre : (p \in late) = (p \in last.prel)
+    /\ A.n \in {"New", "Modified", "ModifiedObj", "ModifiedNewKey", "Duplicate"} => ((A.id \in late) = last.prer)
+    /\ late # {} => reg
 
 \* -- copies
 OthersUntouched ==                       \* whatever is done to or with one object leaves every other object as it was
